@@ -94,11 +94,15 @@ impl Report {
         let key = format!("{}:{}", v.kind, v.check);
         let n = self.violations.iter().filter(|x| format!("{}:{}", x.kind, x.check) == key).count();
         self.violation_keys.insert(key);
-        if n < 5 {
+        if n < 3 {
             self.violations.push(v);
         } else {
             self.count("violations_suppressed", 1);
         }
+    }
+    /// violations already recorded for this check (used to skip expensive shrinking)
+    pub fn violations_for(&self, check: &str) -> usize {
+        self.violations.iter().filter(|v| v.check == check).count()
     }
     pub fn known_finding(&mut self, id: &str, what: &str) {
         self.known_seen.push(json!({"id": id, "what": what}));
